@@ -90,6 +90,7 @@ def transfers(config):
             ["distribute", wl, "T", 1, "Q", ["C02", "C02", "A01"], {"volume": v + 1}],
             ["distribute", wl, "T", 0, "U", ["A01", "A03"], {"volume": v}],
             ["distribute", wl, "T", 1, "T", ["A01", "B01", "C01"], {"volume": v}],
+            ["distribute", wl, "T", 0, "T", ["B02", "C02"], {"volume": v}],  # into the second column of a trough with several virtual rows
             ["distribute", wl, "T", 0, "Q", {"$w2d": ["Q", 0, 3, 0, 2]}, {"volume": v + 2}],
         ]
     return ev
